@@ -44,6 +44,8 @@ enum Step {
     ExecPaged(usize, i32, Option<Box<Step>>),
     /// the same SELECT text through the CachingSession (its own cached handle), unpaged / paged
     CExec(usize, i32),
+    /// two executions at once: pk forced to node 0, pk + 1 forced to node 1
+    Exec2(i32),
     CExecPaged(usize, i32, Option<Box<Step>>),
     Batch(usize, i32),
     Prepare,
@@ -101,6 +103,7 @@ fn parse_history(v: &Value) -> Result<History, String> {
             (None, Some("exec")) => Step::Exec(node(s)?, pk(s)?),
             (None, Some("exec_paged")) => Step::ExecPaged(node(s)?, pk(s)?, mid_of(s)?),
             (None, Some("cexec")) => Step::CExec(node(s)?, pk(s)?),
+            (None, Some("exec2")) => Step::Exec2(pk(s)?),
             (None, Some("cexec_paged")) => Step::CExecPaged(node(s)?, pk(s)?, mid_of(s)?),
             (None, Some("batch")) => Step::Batch(node(s)?, pk(s)?),
             (None, Some("prepare")) => Step::Prepare,
@@ -303,7 +306,14 @@ impl Model {
         let id = id_for(text, self.salt[n]);
         self.prepared[n].insert(id.clone());
         let rmid = if self.ext[n] { Some(mid(self.ver)) } else { None };
-        let result_cols = if is_select { columns(self.extra, self.bgen) } else { vec![] };
+        // a node that hands out ANOTHER id has, in effect, another statement under that text: it also describes other columns
+        let result_cols = if !is_select {
+            vec![]
+        } else if self.salt[n] != 0 {
+            vec![("zz".to_string(), type_bytes("text").expect("type text"))]
+        } else {
+            columns(self.extra, self.bgen)
+        };
         let ncols = result_cols.len();
         let int = type_bytes("int").expect("type int");
         Answer {
@@ -628,6 +638,15 @@ async fn run_with_mock(h: &History, mock: &MockCluster, model: &Arc<Mutex<Model>
                 let r = collect_pager(session.execute_iter(prepared.clone(), (*k,)).await).await;
                 model.lock().unwrap().mid_event = None;
                 r
+            }
+            Step::Exec2(k) => {
+                let mut p0 = prepared.clone();
+                let mut p1 = prepared.clone();
+                p0.set_load_balancing_policy(Some(forced(0)));
+                p1.set_load_balancing_policy(Some(forced(1)));
+                let (k0, k1) = (*k, k.wrapping_add(1));
+                let (r0, r1) = tokio::join!(session.execute_unpaged(&p0, (k0,)), session.execute_unpaged(&p1, (k1,)));
+                json!({"ok": 1, "pair": [collect_unpaged(r0), collect_unpaged(r1)]})
             }
             Step::CExec(n, k) => {
                 let mut q = scylla::statement::unprepared::Statement::new(SELECT);
